@@ -56,25 +56,21 @@ func C06(c *Ctx) {
 			height = p
 		}
 	}
+	addSites, remSites := c.timeoutUpdSites(stl)
 	var addUpd, remUpd []ssa.Instruction
-	for _, b := range stl.Blocks {
-		for _, in := range b.Instrs {
-			mu, ok := in.(*ssa.MapUpdate)
-			if !ok {
-				continue
-			}
-			if core.Mentions(mu.Key, fieldLoad("IBTP", "TimeoutHeight")) {
-				addUpd = append(addUpd, in)
-			} else if core.Mentions(mu.Key, fieldLoad("TransactionRecord", "Height")) {
-				remUpd = append(remUpd, in)
-			}
-		}
+	nAddInner := 0
+	for _, s := range addSites {
+		addUpd = append(addUpd, s.at)
+		nAddInner += len(s.inner)
 	}
-	r.Floor("R06.1", "registration updates in setTimeoutList", len(addUpd), 2)
-	for _, in := range addUpd {
-		mu := in.(*ssa.MapUpdate)
+	for _, s := range remSites {
+		remUpd = append(remUpd, s.at)
+	}
+	r.Floor("R06.1", "registration updates in setTimeoutList", nAddInner, 2)
+	for _, us := range addSites {
+		in := us.at
 		ok := false
-		for _, o := range append(core.Origins(mu.Key), mu.Key) {
+		for _, o := range append(core.Origins(us.k), us.k) {
 			if bo, isBo := o.(*ssa.BinOp); isBo && bo.Op == token.ADD && height != nil {
 				if (core.Strip(bo.X) == ssa.Value(height) && core.Mentions(bo.Y, fieldLoad("IBTP", "TimeoutHeight"))) ||
 					(core.Strip(bo.Y) == ssa.Value(height) && core.Mentions(bo.X, fieldLoad("IBTP", "TimeoutHeight"))) {
@@ -324,21 +320,14 @@ func (c *Ctx) timeoutListInvariant(rRemoval, rEncoding, rAccum string) {
 	if stl == nil {
 		return
 	}
-	var addUpd, remUpd []ssa.Instruction
-	for _, b := range stl.Blocks {
-		for _, in := range b.Instrs {
-			mu, ok := in.(*ssa.MapUpdate)
-			if !ok {
-				continue
-			}
-			if core.Mentions(mu.Key, fieldLoad("IBTP", "TimeoutHeight")) {
-				addUpd = append(addUpd, in)
-			} else if core.Mentions(mu.Key, fieldLoad("TransactionRecord", "Height")) {
-				remUpd = append(remUpd, in)
-			}
-		}
+	addSites, remSites := c.timeoutUpdSites(stl)
+	var remUpd []ssa.Instruction
+	nRemInner := 0
+	for _, s := range remSites {
+		remUpd = append(remUpd, s.at)
+		nRemInner += len(s.inner)
 	}
-	r.Floor(rRemoval, "removal updates in setTimeoutList", len(remUpd), 2)
+	r.Floor(rRemoval, "removal updates in setTimeoutList", nRemInner, 2)
 	// R06.3
 	nU := 0
 	for _, call := range core.Calls(stl) {
@@ -469,8 +458,18 @@ func (c *Ctx) timeoutListInvariant(rRemoval, rEncoding, rAccum string) {
 	// R06.7 accumulator coherence
 	r.Rule(rAccum, "accumulator coherence: in setTimeoutList a map element that is extended (m[k] = f(old, id)) or initialised under a comma-ok lookup uses the lookup of the same map and key (not the sibling accumulator).")
 	nAcc := 0
-	for _, in := range append(append([]ssa.Instruction{}, addUpd...), remUpd...) {
-		mu := in.(*ssa.MapUpdate)
+	var allInner []*ssa.MapUpdate
+	seenMu := map[*ssa.MapUpdate]bool{}
+	for _, us := range append(append([]updSite{}, addSites...), remSites...) {
+		for _, mu := range us.inner {
+			if !seenMu[mu] {
+				seenMu[mu] = true
+				allInner = append(allInner, mu)
+			}
+		}
+	}
+	for _, mu := range allInner {
+		in := ssa.Instruction(mu)
 		// closest dominating comma-ok lookup
 		var lk *ssa.Lookup
 		for b := mu.Block(); b != nil && lk == nil; b = b.Idom() {
@@ -493,7 +492,7 @@ func (c *Ctx) timeoutListInvariant(rRemoval, rEncoding, rAccum string) {
 		ok := core.Strip(lk.X) == core.Strip(mu.Map) && sameValue(lk.Index, mu.Key)
 		r.Check(ok, rAccum, "setTimeoutList: accumulator read/write agree", c.P.Pos(in.Pos()), "extends the element it looked up", "the per-block accumulator is extended from a lookup in a different map/key: ids recorded earlier in the block for the same height are overwritten")
 	}
-	r.Floor(rAccum, "accumulator updates under a lookup", nAcc, 4)
+	r.Floor(rAccum, "accumulator updates under a lookup", nAcc, 2)
 
 }
 
@@ -562,4 +561,17 @@ func (c *Ctx) timeoutListIdentity() {
 		}
 	}
 	r.Floor("R06.8", "timeout-list calls in the transaction manager", n, 3)
+}
+
+// timeoutUpdSites: the per-block accumulator updates of setTimeoutList: registration (key derived from
+// ibtp.TimeoutHeight) and removal (key = the stored record's Height), direct or through a helper.
+func (c *Ctx) timeoutUpdSites(stl *ssa.Function) (add, rem []updSite) {
+	for _, us := range c.mapUpdateSites(stl) {
+		if core.Mentions(us.k, fieldLoad("IBTP", "TimeoutHeight")) {
+			add = append(add, us)
+		} else if core.Mentions(us.k, fieldLoad("TransactionRecord", "Height")) {
+			rem = append(rem, us)
+		}
+	}
+	return
 }
